@@ -1,4 +1,5 @@
 import BeyondVerif.Generated.CcsdsTables
+import BeyondVerif.Model.CcsdsExt
 /-!
 Structural model of beyond/io/ccsds (commons.py, cov.py, opm.py, oem.py, omm.py, tdm.py).
 
@@ -364,9 +365,14 @@ def opmXml (m : Opm) : R Elem := do
       m.kep.toList.map kepXml ++ m.cov.toList.map (covXml none) ++
       m.mans.map (manXml m.frame) ++ udXml m.ud)]]]
 
-/-- the centre rule of the readers; only the Earth-centred branch is modelled -/
+/-- the centre rule of the readers: `if center.lower() != "earth": frame = center.title().replace(" ", "")`, then the frame of that
+name is looked up in the registry (`frameTable`: the ten Earth-centred frames and every frame centred elsewhere that the library can
+create, regenerated from the live objects); an unregistered name is `UnknownFrameError` -/
 def centreRule (center frame : String) : R String :=
-  if ["EARTH", "Earth", "earth"].contains center then .ok frame else .error .nameError
+  if center.toList.map CcsdsExt.low = "earth".toList then .ok frame
+  else match frameTable.find? (fun e => e.1.toList = CcsdsExt.centerRead center.toList) with
+    | some e => .ok e.1
+    | none => .error .nameError
 
 def keyErrToCcsds : R α → R α
   | .error .keyError => .error .ccsdsError
